@@ -1179,6 +1179,33 @@ fn cuts_for(frames: &[(usize, usize)]) -> Vec<Vec<u64>> {
     v
 }
 
+/// A maximum-size frame whose length prefix starts at every offset in the last bytes of the reader's read-ahead window
+/// (raf x 65536 bytes), the whole transfer waiting in the socket before the reader runs (relayed in one go).
+/// Frame = payload + 18 bytes; 65519 is the largest payload. Also used by C19 (no panic on peer-chosen frame lengths).
+pub fn read_ahead_boundary_cases() -> Vec<Case> {
+    let mut v = Vec::new();
+    for (raf, full_frames) in [(1usize, 0usize), (5, 4)] {
+        let window = raf * 65536;
+        for offset in (window - 60)..=(window + 4) {
+            let filler = offset.checked_sub(full_frames * 65537 + 18);
+            if let Some(p) = filler.filter(|p| (1..=65519).contains(p)) {
+                let mut sizes = vec![65519; full_frames];
+                sizes.push(p);
+                sizes.push(65519);
+                let mut c = Case::honest(&sizes, Mode::FlushEach, 65536, raf, 2);
+                c.attack = Some(Attack::Passthrough);
+                v.push(c);
+            }
+        }
+    }
+    v
+}
+
+/// violations (signature, description) of one case; for C19
+pub fn violations_of(case: &Case) -> Vec<(String, String)> {
+    run_case(case).viols
+}
+
 pub fn run(ctx: &mut Ctx) {
     let quick = ctx.tier == crate::report::Tier::Quick;
     let mut all = SubStats::default();
@@ -1261,6 +1288,11 @@ pub fn run(ctx: &mut Ctx) {
     for s in 65500usize..=65540 {
         g1d.push(Case::honest(&[s], Mode::FlushEach, 65536, 5, 2));
     }
+
+    // ---------------- grid 1e: a maximum-size frame whose length prefix starts at every offset in the last bytes of the
+    // reader's read-ahead window (raf x 65536 bytes), with the whole transfer waiting in the socket before the reader
+    // runs (the relay delivers it in one go). Frame = payload + 18 bytes; 65519 is the largest payload.
+    let g1e = read_ahead_boundary_cases();
 
     // ---------------- grid 2: representative sequences x full carrier grid
     let g2_rbufs: &[usize] = ctx.tier.pick(&[1, 17, 65536][..], &[1, 2, 17, 4096, 65519, 65536][..]);
@@ -1431,6 +1463,7 @@ pub fn run(ctx: &mut Ctx) {
         Batch { name: "grid1b_raw_single_write_calls", cases: g1b },
         Batch { name: "grid1c_responder_writes", cases: g1c },
         Batch { name: "grid1d_frame_limit_scan_65500_65540", cases: g1d },
+        Batch { name: "grid1e_max_frame_at_every_offset_near_read_ahead_window_end", cases: g1e },
         Batch { name: "grid2_representative_sequences_x_carrier_grid", cases: g2 },
         Batch { name: "grid3_spurious_pending_le2_deviations", cases: g3 },
         Batch { name: "grid4_tamper_replay_drop_reorder_truncate", cases: g4 },
